@@ -1282,7 +1282,8 @@ NOT proved (`write_read_exact` for the whole file stays `_partial`):
   counterexamples for the hypotheses that cannot be dropped);
 * not proved: that tempo rows at one offset in memory are written so that the later row is in force (the link from
   `toTimingMap` with tied rows to `effectivePairs` of the written pairs — compared on every tied case by (S)); the time
-  bound for a row and its object separated by a tempo change; `'\r' ∉ renderWritten` from the inputs.
+  bound with the longest beat length *between* a row and its object (`written_time_lipschitz` has the longest of the
+  whole list); `'\r' ∉ renderWritten` from the inputs.
 The check evaluates the whole composition on every case (S).
 -/
 
